@@ -368,7 +368,7 @@ INNER_KINDS = ("compound", "parallel")
 def enumerate_trees(max_nodes, leaf_kinds=LEAF_KINDS, all_initials=True):
     """Every tree shape with <= max_nodes nodes x every kind assignment x every
     choice of initial child.  History only as a non-root leaf.  Yields lists of Node."""
-    for n in range(1, max_nodes + 1):
+    for n in range(2, max_nodes + 1):
         for sh in shapes(n):
             base = build_tree(sh, None)
             inner = [x.idx for x in base if x.children]
